@@ -322,7 +322,6 @@ async def try_build(M, opts, seed):
     try:
         e = await create_engine(sdl, schema_name=name)
     except Exception as ex:
-        inst = (SchemaRegistry._schemas.get(name) or {}).get("inst")
         usable = False
         return ("raised", f"{type(ex).__name__}: {ex}"[:200], sdl, usable)
     return ("built", None, sdl, True)
